@@ -99,7 +99,7 @@ def verify_item(item, timeout_ms=None):
             # hide hypotheses the obligation does not need (sound: dropping hypotheses only
             # weakens the premise); if that is not enough the full path condition is used
             full_pc = pc
-            keep = relevance(oname) if relevance else None
+            keep = relevance(oname, con if kind == "fn" else None) if relevance else None
             if keep is not None and tags:
                 pc = [f for i, f in enumerate(full_pc) if (i not in tags) or keep(tags[i])]
                 if len(pc) < len(full_pc):
